@@ -5,6 +5,7 @@ import (
 	"os"
 	"path/filepath"
 	"sync"
+	"sync/atomic"
 	"time"
 )
 
@@ -16,7 +17,17 @@ type Env struct {
 	P   *Proxy
 	W   *Witness
 	Bin string
+	// unresponsive is set once the witness connection's PING stayed unanswered for the
+	// whole watchdog although the proxy process is alive; later barriers fail at once.
+	unresponsive int32
 }
+
+// OnUnresponsive, when set, is told about the first barrier of an environment that
+// failed although the proxy is alive and the witness connection is open: the event
+// loop no longer serves a connection that only ever sent PING.
+var OnUnresponsive func(e *Env, err error)
+
+var errUnresponsive = fmt.Errorf("proxy no longer answers the witness connection")
 
 type EnvOpt struct {
 	Masters  int
@@ -203,17 +214,27 @@ func (e *Env) Restart() error {
 		return err
 	}
 	e.W = w
+	atomic.StoreInt32(&e.unresponsive, 0)
 	return nil
 }
 
 // Barrier passes the event-loop barrier (k PING round trips on the witness).
 func (e *Env) Barrier() error {
+	if atomic.LoadInt32(&e.unresponsive) != 0 {
+		return errUnresponsive
+	}
+	if e.W == nil {
+		return fmt.Errorf("no witness connection")
+	}
 	err := e.W.Barrier(8, 15*time.Second)
 	if err != nil {
 		// give the exit of a dying proxy time to be noticed, so that callers
 		// can tell "proxy died" from "harness trouble"
 		for i := 0; i < 20 && e.P.Alive(); i++ {
 			time.Sleep(50 * time.Millisecond)
+		}
+		if e.P.Alive() && !e.W.c.IsClosed() && atomic.CompareAndSwapInt32(&e.unresponsive, 0, 1) && OnUnresponsive != nil {
+			OnUnresponsive(e, err)
 		}
 	}
 	return err
